@@ -476,8 +476,10 @@ def _zid(c):
 def encode(case, obs):
   if case.get('grid'):
     g = case['grid']
-    grid = f'(Some (({g[0]})%Z, ({g[1]})%Z, ({g[2]})%Z, ({g[3]})%Z, ({fw.zlist(obs["grid"])})%Z))'
-    return (f'(mkC01 (mkSgd 0 0 false) (mkSgd 0 0 false) false [] [] [] [] 0 (1%Z, None, None, false) {grid}, [])')
+    # chunks of 400: one flat list literal of tens of thousands of elements overflows Coq's stack
+    chunks = [obs['grid'][i:i + 400] for i in range(0, len(obs['grid']), 400)]
+    grid = (f'(Some (({g[0]})%Z, ({g[1]})%Z, ({g[2]})%Z, ({g[3]})%Z, (concat {fw.clist([fw.zlist(ch) for ch in chunks])})%Z))')
+    return (f'(mkC01 (mkSgd 0 0 false) (mkSgd 0 0 false) false [] [] [] [] 0 (1%Z, None, None, false) {grid}, ([] : C01_obs))')
   if obs.get('err') or case['copt']['kind'] != 'sgd' or len(obs['rounds']) != len(case['rounds']) or case.get('poison'):
     return None
   opaque = case['sopt']['kind'] != 'sgd'
